@@ -428,7 +428,38 @@ pub fn write_replay(prop: &str, sc: &Scenario, oracle: &str, detail: &str, trace
     path
 }
 
+/// Replays in a child process under a wall-clock watchdog, so that a replay file whose violation is
+/// an abort or an endless loop reproduces as a violation instead of taking this process down.
+pub fn replay_guarded(path: &str) -> i32 {
+    use std::os::unix::process::ExitStatusExt;
+    let exe = std::env::current_exe().unwrap();
+    let st = std::process::Command::new(exe).args(["replay-inner", path]).status();
+    match st {
+        Ok(s) => {
+            if let Some(c) = s.code() {
+                return c;
+            }
+            let sig = s.signal().unwrap_or(0);
+            let prop = std::fs::read_to_string(path)
+                .ok()
+                .and_then(|t| serde_json::from_str::<Value>(&t).ok())
+                .and_then(|v| v["property"].as_str().map(|x| x.to_string()))
+                .unwrap_or_default();
+            println!("violation property={} oracle=abort-or-hang detail=the replay process was terminated by signal {} (abort, or wall-clock watchdog after 25 s)", prop, sig);
+            println!("VIOLATION property={} replay={}", prop, path);
+            1
+        }
+        Err(e) => {
+            eprintln!("HARNESS-ERROR: cannot start the replay process: {}", e);
+            2
+        }
+    }
+}
+
 pub fn replay(path: &str) -> i32 {
+    unsafe {
+        libc::alarm(25);
+    }
     let Ok(s) = std::fs::read_to_string(path) else {
         eprintln!("HARNESS-ERROR: cannot read {}", path);
         return 2;
